@@ -33,6 +33,8 @@ func (channel *Channel) basicRoute(method amqp.Method) *amqp.Error {
 func (channel *Channel) basicQos(method *amqp.BasicQos) (err *amqp.Error) {
 	channel.updateQos(method.PrefetchCount, method.PrefetchSize, method.Global)
 	channel.SendMethod(&amqp.BasicQosOk{})
+	// a raised limit may give waiting consumers room
+	channel.wakeConsumers()
 
 	return nil
 }
